@@ -5,8 +5,8 @@ CONSTANTS
   SDepth = 1
   Shapes = {"", "H", "L", "C", "HC", "LC"}
   Mod = 1
-  NCalls = 12
-  NProg = 120
+  NCalls = 36
+  NProg = 2500
   Sample = TRUE
   Wide = TRUE
   Dump = TRUE
